@@ -108,6 +108,7 @@ fn replay(sink: &mut common::Sink, toks: &[&str]) {
         "rawtop" | "rawstr" | "rawelems" => c19::replay(sink, toks),
         "esc" | "escbufs" | "hex4" | "hex4s" | "scan" => c05::replay(sink, toks),
         "serc" | "serp" | "serbufs" | "serbufx" | "disp" => c03::replay(sink, toks),
+        "dispf" | "dispn" => c03::replay(sink, toks),
         "maphist" | "mapeqh" | "mapeq" | "maphash" | "mapsort" => c17::replay(sink, toks),
         "f64lit" | "f32lit" => c08::replay(sink, toks),
         "tov" | "tovagree" => c15::replay(sink, toks),
